@@ -2,6 +2,7 @@
 D1 decorator contract, D2 two-sided tie tolerance of the weighted median, D3 pad / unpad pairing of the smoothers,
 D4 translation / scale typing of the estimator bodies, D5 constant data (see estyping.py)."""
 import ast
+from fractions import Fraction as Fr
 
 from ..core import AnalysisError, own_nodes, norm, parents, stmt_of, dominates
 from .. import flow
@@ -213,6 +214,47 @@ def _kaiser_unweighted_ok(fi, wing):
     return False
 
 
+def d3b(chk, prog):
+    """the half-window never exceeds the signal: wing <= len(x) - 1 for every width (mirror padding needs wing <= n - 1 values on each side)"""
+    from ..abstools import Interp, Term, W, T, provably_le, INF, Undecided
+    from ..absval import Raised
+    fi = prog.fn("cnvlib.smoothing._width2wing")
+
+    class Sig:
+        def __init__(self, n):
+            self.n = n
+
+        def abs_len(self):
+            return self.n
+    bad, n_ok = [], 0
+    for width, label in ((Fr(1, 10), "fraction 0.1"), (Fr(9, 10), "fraction 0.9"), (2, "window 2"), (7, "window 7"), (101, "window 101")):
+        W.reset()
+        n = Term.sym("n", 2, INF, True)
+        it = Interp(prog)
+        from ..absint import CTX
+        old = CTX.atoms
+        CTX.atoms = lambda d, op: True            # `assert wing >= 1`
+        try:
+            out = it.run(fi.qn, [width, Sig(n)])
+        except (Undecided, Raised) as e:
+            raise AnalysisError(f"C19-D3b: cannot evaluate _width2wing({label}): {e}")
+        finally:
+            CTX.atoms = old
+        lim = t_sub_(n)
+        if provably_le(out, lim):
+            n_ok += 1
+        else:
+            bad.append(f"{label}: wing = {out!r}")
+    chk.decide(not bad, "pad-unpad", f"_width2wing: wing <= len(x) - 1 for every width ({n_ok} width kinds)", f"{fi.qn}::wing bound", fi.loc(),
+               "the half-window is not bounded by len(x) - 1: " + "; ".join(bad) + " -- for a signal shorter than the minimum wing the mirrored padding is longer than the signal and the "
+               "smoothers return fewer / more values than they were given (rolling_median of 2 values returns 0 values)", cells=5)
+
+
+def t_sub_(n):
+    from ..abstools import t_sub, Term
+    return t_sub(n, Term.const(1))
+
+
 def d45(chk, prog):
     chk.clause("D4", "translation / scale typing: location estimators return LOC (degree 1), scale estimators INV (degree 1)")
     chk.clause("D5", "constant data: scale estimators evaluate to 0, location estimators to the common value; library preconditions hold")
@@ -226,6 +268,7 @@ def run(chk):
     d1(chk, prog)
     d2(chk, prog)
     d3(chk, prog)
+    d3b(chk, prog)
     d45(chk, prog)
 
 
@@ -250,6 +293,8 @@ MUTANTS = [
     dict(name="gapper without gaps", file=_D, old="    gaps = np.diff(np.sort(a))", new="    gaps = np.sort(a)[1:]"),
     dict(name="q_n differences not absolute... signed sum", file=_D, old="            vals.append(abs(x_i - x_j))", new="            vals.append(abs(x_i + x_j))"),
     dict(name="weighted_mad around zero", file=_D, old="    mad = weighted_median(np.abs(a - a_median), weights)", new="    mad = weighted_median(np.abs(a), weights)"),
+    dict(name="seeded C19b: minimum wing overrides the truncation to the signal length", file=_S, old="    wing = max(wing, min_wing)\n    wing = min(wing, len(x) - 1)\n", new="    wing = max(min(wing, len(x) - 1), min_wing)\n"),
+    dict(name="seeded C19a: majority shortcut at exactly half the weight", file=_D, old="    if (weights > midpoint).any():", new="    if (weights >= midpoint).any():"),
     dict(name="twin: MAD subtraction order", file=_D, old="    mad = np.median(np.abs(a - a_median))\n    if scale_to_sd:", new="    mad = np.median(np.abs(a_median - a))\n    if scale_to_sd:", expect="silent"),
     dict(name="twin: tie test operands swapped", file=_D, old="and abs(cumulative_weight[midpoint_idx] - midpoint) < sys.float_info.epsilon", new="and sys.float_info.epsilon > abs(midpoint - cumulative_weight[midpoint_idx])", expect="silent"),
 ]
